@@ -9,6 +9,7 @@ import (
 	"fmt"
 	"go/ast"
 	"go/token"
+	"path/filepath"
 	"sort"
 	"strconv"
 	"strings"
@@ -407,6 +408,41 @@ func genRpcFacts(root *pkgSrc) {
 			k = 0
 		}
 		fmt.Fprintf(&b, "  (%s, %d)%s  -- %s %s\n", leanText(c.fn), k, sep, c.file, c.fn)
+	}
+	b.WriteString("]\n\n")
+
+	// 6. index and slice expressions of internal/httputil/accept.go (each can panic when out of range): (function, expression)
+	hp := loadDir(filepath.Join(*repo, "internal", "httputil"))
+	type rpcIndexSite struct {
+		fn, text string
+		line     int
+	}
+	var sites []rpcIndexSite
+	if f := hp.files["accept.go"]; f != nil {
+		for _, d := range f.Decls {
+			fd, ok := d.(*ast.FuncDecl)
+			if !ok || fd.Body == nil {
+				continue
+			}
+			ast.Inspect(fd.Body, func(n ast.Node) bool {
+				switch n.(type) {
+				case *ast.IndexExpr, *ast.SliceExpr:
+					sites = append(sites, rpcIndexSite{funcName(fd), rpcSquash(hp.text(n)), hp.line(n)})
+				}
+				return true
+			})
+		}
+	} else {
+		sites = append(sites, rpcIndexSite{"?", "internal/httputil/accept.go not found", 0})
+	}
+	sort.SliceStable(sites, func(i, j int) bool { return sites[i].line < sites[j].line })
+	b.WriteString("/-- every index / slice expression of internal/httputil/accept.go (a Go index panics when out of range):\n    (enclosing function, expression) -/\ndef rpcIndexSites : List (Text × Text) := [\n")
+	for i, x := range sites {
+		sep := ","
+		if i == len(sites)-1 {
+			sep = ""
+		}
+		fmt.Fprintf(&b, "  (%s, %s)%s  -- %s\n", leanText(x.fn), leanText(x.text), sep, x.text)
 	}
 	b.WriteString("]\n\nend Mcp.Gen\n")
 	writeIfChanged("RpcFacts.lean", b.String())
